@@ -150,6 +150,10 @@ public:
     void hash(uint64_t v) { case_hash_ = hash_mix(case_hash_, v); }
     void hash(const std::string& s) { case_hash_ = hash_mix(case_hash_, hash_str(s)); }
     void sample(const std::string& s) { case_sample_ = s; }
+    // feed a computed RESULT (rendered getter values, serialised bytes...) into the case's result fingerprint only
+    // (not into the distinct-case hash): used by the uninitialised-memory and concurrency differentials
+    void result(uint64_t v) { case_result_ = hash_mix(case_result_, v); }
+    void result(const std::string& s) { case_result_ = hash_mix(case_result_, hash_str(s)); }
     void excluded(const char* what) { if (!in_shrink) excluded_[what]++; }
     void log(const std::string& s);
     bool logging() const { return verbose; }
@@ -169,7 +173,7 @@ public:
     uint64_t evaluations() const { return evaluations_; }
     // fingerprint of what the current case computed (decoded-case hash, labels, non-trivial flag, sample text)
     uint64_t case_digest() const {
-        uint64_t h = hash_mix(case_hash_, case_nontrivial_ ? 1 : 0);
+        uint64_t h = hash_mix(hash_mix(case_hash_, case_result_), case_nontrivial_ ? 1 : 0);
         for (const std::string& l : case_labels_) h = hash_mix(h, hash_str(l));
         return hash_mix(h, hash_str(case_sample_));
     }
@@ -178,7 +182,7 @@ public:
 private:
     std::set<std::string> case_labels_;
     bool case_nontrivial_ = false;
-    uint64_t case_hash_ = 0;
+    uint64_t case_hash_ = 0, case_result_ = 0;
     std::string case_sample_;
 
     uint64_t evaluations_ = 0, nontrivial_ = 0;
